@@ -26,17 +26,19 @@ VARIABLE inp
 AllOptIds == {"req", "opt", "def", "defbig", "options", "optbig", "rcc", "roo", "rco", "roc", "rhi", "rlo",
               "optrange", "str", "stropts", "defopts", "defrange", "env5", "env300",
               \* env= / default= combined with range= / options=: value inside, on the boundary, outside
-              "er_m1", "env_0", "er_1", "er_5", "er_7", "er_300", "eoc_1", "eoc_5", "eo_1", "eo_7", "defz", "defrout", "defoout"}
+              "er_m1", "env_0", "er_1", "er_5", "er_7", "er_300", "eoc_1", "eoc_5", "eo_1", "eo_7", "defz", "defrout", "defoout",
+              \* optional combined with default= / range= / options= (members of request structs)
+              "optdef", "optrcc", "optroc", "optopts"}
 
 DefaultFor(k) == CASE k \in IntKinds -> "5" [] k \in FloatKinds -> "1.5" [] k = "bool" -> "true"
                    [] k = "string" -> "abc" [] OTHER -> "10s"
 OptionsFor(k) == IF k = "string" THEN {"abc", "xyz"} ELSE {"1", "5"}
 
 Applicable(id, k) ==
-  CASE id \in {"req", "opt", "def", "str", "env5", "env300"} -> TRUE
-    [] id \in {"defbig", "rcc", "roo", "rco", "roc", "rhi", "rlo", "optrange", "defrange"} -> k \in NumKinds
+  CASE id \in {"req", "opt", "def", "str", "env5", "env300", "optdef"} -> TRUE
+    [] id \in {"defbig", "rcc", "roo", "rco", "roc", "rhi", "rlo", "optrange", "defrange", "optrcc", "optroc"} -> k \in NumKinds
     [] id = "optbig" -> k \in IntKinds
-    [] id \in {"options", "defopts", "stropts"} -> k \in NumKinds \cup {"string"}
+    [] id \in {"options", "defopts", "stropts", "optopts"} -> k \in NumKinds \cup {"string"}
     [] id \in {"er_m1", "env_0", "er_1", "er_5", "er_7", "er_300", "eoc_1", "eoc_5", "eo_1", "eo_7", "defz", "defrout", "defoout"} -> k \in NumKinds
     [] OTHER -> FALSE
 
@@ -71,6 +73,10 @@ OptFor(id, k) ==
     [] id = "defz" -> Opts(FALSE, "010", {}, NoRange, FALSE, "")
     [] id = "defrout" -> Opts(FALSE, "7", {}, Rng("1", "5", TRUE, TRUE), FALSE, "")
     [] id = "defoout" -> Opts(FALSE, "7", {"1", "5"}, NoRange, FALSE, "")
+    [] id = "optdef" -> Opts(TRUE, DefaultFor(k), {}, NoRange, FALSE, "")
+    [] id = "optrcc" -> Opts(TRUE, "", {}, Rng("1", "5", TRUE, TRUE), FALSE, "")
+    [] id = "optroc" -> Opts(TRUE, "", {}, Rng("1", "5", FALSE, TRUE), FALSE, "")
+    [] id = "optopts" -> Opts(TRUE, "", OptionsFor(k), NoRange, FALSE, "")
     [] id = "env5" -> Opts(FALSE, "", {}, NoRange, FALSE, "5")
     [] id = "env300" -> Opts(TRUE, "", {}, NoRange, FALSE, "300")
 
@@ -106,7 +112,7 @@ SubVal == [v |-> "sub", text |-> "", ms |-> 0]
 StructJ(outs) == LET s == StructAllowed(outs) IN [err |-> s.err, ok |-> s.ok, any |-> s.any]
 
 CaseJ(family, src, yaml, fields, outs) ==
-  [family |-> family, src |-> src, yaml |-> yaml, fields |-> fields, out |-> StructJ(outs)]
+  [family |-> family, src |-> src, yaml |-> yaml, fields |-> fields, out |-> StructJ(outs), focus |-> ""]
 
 \* --------------------------------------------------------------- family: single
 F1(i) == LET o == OptFor(i.id, i.k) IN [o |-> o, out |-> Allowed(i.k, o, i.doc, i.src)]
@@ -290,46 +296,75 @@ DeepCase(i) ==
              inherit |-> FALSE, part |-> "", doc |-> [d |-> "sub"], out |-> inner, sub |-> <<fb>>]
   IN CaseJ("deep", "typed", DocYaml(i.doc) /\ i.shape # "sp0", <<fd>>, <<inner>>)
 
-\* --------------------------------------------------------------- family: roundtrip
-\* one field per request part; the value of each field is named by a literal that fits its kind.
-\* Allowed = the struct comes back equal (error tolerated only for the upper half of uint64).
+\* --------------------------------------------------------------- family: roundtrip / rtopt / rtcons
+\* one member per request part; the value of each member is named by a literal that fits its kind.
+\* Allowed = UnmarshalContract!RoundTripAllowed: the struct comes back equal (error tolerated only
+\* for the upper half of uint64) unless a member's value is outside its own options= / range=.
 RTVal(k, l) ==
   CASE k \in NumKinds -> Numeric(l) /\ Fits(l, k) /\ (k \in IntKinds => l.syn = "int")
     [] k = "bool" -> l.class = "bool"
-    [] k = "string" -> l.class = "string" /\ l.text # ""
+    [] k = "string" -> l.class = "string"
     [] OTHER -> FALSE
 \* Every generated string can be carried by every part: httpc writes path values into URL.Path
 \* (escaped once by URL.String, decoded once by the server), form values through url.Values.Encode,
 \* header values verbatim (HTTP allows everything but control characters; blanks at the ends would be
 \* trimmed and are not generated), json values through encoding/json.  Not generated because the part
 \* cannot carry them: "/" , "." and ".." as a path value (the router splits / cleans the decoded path),
-\* the empty string (dropped by form parsing, refused by the path filler), control characters.
-RTPartOk(part, k, l) == TRUE
+\* control characters, and - in the path and form parts - the empty string (a path segment cannot be
+\* empty, the path filler refuses it; form parsing drops empty values).  The header and json parts
+\* carry "" (the zero value of a string member: "optional" with options= on the client side).
+RTPartOk(part, k, l) == (k = "string" /\ l.text = "") => part \in {"header", "json"}
 
-RTOut(k, l) ==
-  LET v == CASE k \in NumKinds -> NumVal(l, k) [] k = "bool" -> VBool(l.text) [] OTHER -> VStr(l.text)
-  IN IF k \in {"uint64", "uint"} /\ HasValue(l) /\ Lt("9223372036854775807", l.at) THEN Either(v) ELSE Must(v)
-
-\* family "rtopt": every member is `optional,default=<non-zero>`; the client sends the zero value,
-\* the default or another value.  "Parsed back into an equal struct" does not depend on the options:
-\* a member the client holds at its zero value comes back as zero, not as the default.
-RTOpts(om, k) == IF om = "optdef" THEN Opts(TRUE, DefaultFor(k), {}, NoRange, FALSE, "") ELSE Plain
-RTInit(om) ==
+\* Option sets of request members.  The families:
+\*   roundtrip  every member plain
+\*   rtopt      every member `optional,default=<non-zero>`; the client sends the zero value, the
+\*              default or another value.  "Parsed back into an equal struct" does not depend on the
+\*              options: a member the client holds at its zero value comes back as zero.
+\*   rtcons     one FOCUS member (each part in turn) with every kind x option set x value of the
+\*              catalogue - range= with the four bracket combinations, options=, each also with
+\*              optional / default=, `,string` (json part), pointer member (json part) - and client
+\*              values on both bounds, just inside, just outside; the three other members share one
+\*              (kind, option set, value) of the reduced catalogue, valid or outside.
+RTIds == {"req", "opt", "def", "optdef", "rcc", "roo", "rco", "roc", "options", "optrcc", "optroc", "optopts",
+          "defrange", "defopts", "str"}
+RTApplicable(id, k, part) ==
+  /\ id \in RTIds /\ Applicable(id, k)
+  \* `,string` is a notion of typed documents: only the json part (cf. SrcOk)
+  /\ (id = "str" => part = "json")
+RTInit(fam, id) ==
   \E kp \in Kinds, lp \in LitIdx, kf \in Kinds, lf \in LitIdx, kh \in Kinds2, lh \in LitIdx2, kj \in Kinds, lj \in LitIdx :
      /\ RTVal(kp, Lits[lp]) /\ RTVal(kf, Lits[lf]) /\ RTVal(kh, Lits[lh]) /\ RTVal(kj, Lits[lj])
      /\ RTPartOk("path", kp, Lits[lp]) /\ RTPartOk("form", kf, Lits[lf])
-     /\ inp = [family |-> IF om = "optdef" THEN "rtopt" ELSE "roundtrip", om |-> om, src |-> "typed", kp |-> kp, lp |-> lp, kf |-> kf, lf |-> lf,
-               kh |-> kh, lh |-> lh, kj |-> kj, lj |-> lj]
+     /\ RTPartOk("header", kh, Lits[lh]) /\ RTPartOk("json", kj, Lits[lj])
+     /\ inp = [family |-> fam, src |-> "typed", focus |-> "", kp |-> kp, lp |-> lp, kf |-> kf, lf |-> lf,
+               kh |-> kh, lh |-> lh, kj |-> kj, lj |-> lj, idp |-> id, idf |-> id, idh |-> id, idj |-> id, pj |-> FALSE]
 
-RTField(n, part, k, l, om) ==
-  [PrimJ(n, k, FALSE, RTOpts(om, k), Present(l), RTOut(k, l)) EXCEPT !.part = part]
-RTNames == [p |-> "a", f |-> "b", h |-> "s"]
+RTConsInit ==
+  \E fp \in Parts, k \in Kinds, id \in OptIds, l \in LitIdx, ptr \in BOOLEAN,
+     k2 \in Kinds2, id2 \in OptIds2, l2 \in LitIdx2 :
+     /\ RTVal(k, Lits[l]) /\ RTApplicable(id, k, fp) /\ RTPartOk(fp, k, Lits[l])
+     /\ RTVal(k2, Lits[l2]) /\ id2 # "str" /\ RTApplicable(id2, k2, "") /\ RTPartOk("path", k2, Lits[l2])
+     \* a pointer member (always non-nil here): json part only (the other parts render members with
+     \* fmt.Sprint) and without options= / range= / `,string`: the client helper's validation and its
+     \* `,string` rendering do not look through pointers (inherited: "unsupported type *int", the
+     \* address as text) - observed, not generated; see the check's notes
+     /\ (ptr => (fp = "json" /\ id \in {"req", "opt", "def", "optdef"}))
+     /\ LET sel(p, a, b) == IF fp = p THEN a ELSE b
+        IN inp = [family |-> "rtcons", src |-> "typed", focus |-> fp,
+                  kp |-> sel("path", k, k2), lp |-> sel("path", l, l2), idp |-> sel("path", id, id2),
+                  kf |-> sel("form", k, k2), lf |-> sel("form", l, l2), idf |-> sel("form", id, id2),
+                  kh |-> sel("header", k, k2), lh |-> sel("header", l, l2), idh |-> sel("header", id, id2),
+                  kj |-> sel("json", k, k2), lj |-> sel("json", l, l2), idj |-> sel("json", id, id2), pj |-> ptr]
+
+RTOutOf(k, id, l) == RoundTripAllowed(k, OptFor(id, k), l)
+RTField(n, part, k, id, l, ptr) ==
+  [PrimJ(n, k, ptr, OptFor(id, k), Present(l), RTOutOf(k, id, l)) EXCEPT !.part = part]
 RTCase(i) ==
-  LET fp == RTField("a", "path", i.kp, Lits[i.lp], i.om)
-      ff == RTField("b", "form", i.kf, Lits[i.lf], i.om)
-      fh == RTField("s", "header", i.kh, Lits[i.lh], i.om)
-      fj == RTField("x", "json", i.kj, Lits[i.lj], i.om)
-  IN CaseJ(i.family, "typed", TRUE, <<fp, ff, fh, fj>>, <<fp.out, ff.out, fh.out, fj.out>>)
+  LET fp == RTField("a", "path", i.kp, i.idp, Lits[i.lp], FALSE)
+      ff == RTField("b", "form", i.kf, i.idf, Lits[i.lf], FALSE)
+      fh == RTField("s", "header", i.kh, i.idh, Lits[i.lh], FALSE)
+      fj == RTField("x", "json", i.kj, i.idj, Lits[i.lj], i.pj)
+  IN [CaseJ(i.family, "typed", TRUE, <<fp, ff, fh, fj>>, <<fp.out, ff.out, fh.out, fj.out>>) EXCEPT !.focus = i.focus]
 
 \* --------------------------------------------------------------- family: axioms
 \* The numeric facts this specification takes as given (TLC cannot compute with 64-bit values):
@@ -346,8 +381,9 @@ Init ==
     [] Family \in {"pair", "embedded"} -> PairInit(Family)
     [] Family \in {"slice", "map"} -> ContInit(Family)
     [] Family \in {"nested", "inherit"} -> NestInit(Family)
-    [] Family = "roundtrip" -> RTInit("req")
-    [] Family = "rtopt" -> RTInit("optdef")
+    [] Family = "roundtrip" -> RTInit("roundtrip", "req")
+    [] Family = "rtopt" -> RTInit("rtopt", "optdef")
+    [] Family = "rtcons" -> RTConsInit
     [] Family = "deep" -> DeepInit
     [] Family = "axioms" -> inp = [family |-> "axioms"]
     [] Family = "twice" -> TwiceInit
@@ -361,7 +397,7 @@ CaseOf(i) ==
     [] i.family \in {"pair", "embedded"} -> PairCase(i)
     [] i.family \in {"slice", "map"} -> ContCase(i)
     [] i.family \in {"nested", "inherit"} -> NestCase(i)
-    [] i.family \in {"roundtrip", "rtopt"} -> RTCase(i)
+    [] i.family \in {"roundtrip", "rtopt", "rtcons"} -> RTCase(i)
     [] i.family = "deep" -> DeepCase(i)
     [] i.family = "axioms" -> AxiomsCase
     [] i.family = "twice" -> ContCase(i)
@@ -396,8 +432,14 @@ Sane ==
            /\ (s.mustErr => ~s.ok /\ ~s.any /\ s.err)
            /\ (s.err \/ s.ok \/ s.any)
   \* a round trip never needs a wrapped value: every generated request value fits its field
-  /\ inp.family \in {"roundtrip", "rtopt"} =>
+  /\ inp.family \in {"roundtrip", "rtopt", "rtcons"} =>
         /\ Fits(Lits[inp.lp], inp.kp) /\ Fits(Lits[inp.lf], inp.kf)
         /\ Fits(Lits[inp.lh], inp.kh) /\ Fits(Lits[inp.lj], inp.kj)
+        /\ \A m \in {<<inp.kp, inp.idp, inp.lp>>, <<inp.kf, inp.idf, inp.lf>>, <<inp.kh, inp.idh, inp.lh>>, <<inp.kj, inp.idj, inp.lj>>} :
+              T_RoundTrip(m[1], OptFor(m[2], m[1]), Lits[m[3]], RTOutOf(m[1], m[2], Lits[m[3]]))
+        \* the struct comes back equal exactly when no member is outside its constraint
+        /\ LET s == StructAllowed(<<RTOutOf(inp.kp, inp.idp, Lits[inp.lp]), RTOutOf(inp.kf, inp.idf, Lits[inp.lf]),
+                                    RTOutOf(inp.kh, inp.idh, Lits[inp.lh]), RTOutOf(inp.kj, inp.idj, Lits[inp.lj])>>)
+           IN (s.ok \/ s.err) /\ ~s.any
 
 =============================================================================
